@@ -271,6 +271,9 @@ def run(ctx):
         for r in res: ctx.add_result(r)
         ctx.functions.update(funcs)
     struct_obligations(ctx)
+    # closing target cached per branch as nodes arrive (BranchValueHook), offered by BaseClosureRule, applied by ClosingRule
+    from checks import c10
+    ctx.restate(c10.closing_apply_obligation, 'C10.', 'C05.hook.')
     ctx.samples = [dict(obligation=r.name, status=r.status, meta={k: v for k, v in r.meta.items() if k != 'cex'}) for r in ctx.results[:4]]
     ctx.replayers['C05.'] = lambda r: replay(dict(obligation=r.name, meta=r.meta, counterexample=r.cex))
 
